@@ -40,6 +40,13 @@ func Execute(spec RunSpec) (res *Result, reusable bool) {
 		tape = sim.ReplayTape(spec.Gen, spec.Sched)
 	} else {
 		tape = sim.NewTape(runSeed)
+		if info.Enum != nil {
+			if n := info.Enum(spec.Tier); spec.Index < uint64(n) {
+				tape.Force = []uint32{uint32(spec.Index) + 1}
+			} else {
+				tape.Force = []uint32{0}
+			}
+		}
 	}
 	res = &Result{Prop: spec.Prop, Index: spec.Index, Seed: runSeed, Counts: map[string]int{}}
 	s := sim.NewSim(tape)
@@ -57,7 +64,9 @@ func Execute(spec RunSpec) (res *Result, reusable bool) {
 	}()
 	ResetGlobals()
 	res.Steps = s.Step
-	res.TraceHash = s.TraceHash()
+	if res.TraceHash == 0 {
+		res.TraceHash = s.TraceHash()
+	}
 	res.Abnormal = s.Abnormal
 	for k, v := range s.Counts {
 		res.Counts[k] += v
